@@ -782,10 +782,22 @@ def to_hashable(  # noqa: C901, PLR0911, PLR0912
 
     # Handle pandas Series and DataFrames
     if "pandas" in sys.modules:
+        # `to_dict` forgets the order of the index (and of the columns) and, for a repeated
+        # label, all values but the last; the labels and values are therefore added in order.
         if isinstance(obj, sys.modules["pandas"].Series):
-            return (m, tp, (obj.name, to_hashable(obj.to_dict(), fallback_to_pickle)))
+            data = (
+                obj.name,
+                to_hashable(obj.to_dict(), fallback_to_pickle),
+                to_hashable(obj.index.tolist(), fallback_to_pickle),
+                to_hashable(obj.tolist(), fallback_to_pickle),
+            )
+            return (m, tp, data)
         if isinstance(obj, sys.modules["pandas"].DataFrame):
-            return (m, tp, to_hashable(obj.to_dict("list"), fallback_to_pickle))
+            labels = (
+                to_hashable(obj.columns.tolist(), fallback_to_pickle),
+                to_hashable(obj.index.tolist(), fallback_to_pickle),
+            )
+            return (m, tp, to_hashable(obj.to_dict("list"), fallback_to_pickle), labels)
 
     if fallback_to_pickle:
         try:
